@@ -1452,11 +1452,13 @@ func cmdC18(args []string) error {
 	}
 	var glue []*c18GlueCase
 	var checks []c18Check
+	var apiCases []c18APICase
 	if *withGlue {
 		hookrt.Uninstall()
 		glue, checks = c18Glue(in)
+		apiCases = c18APICases()
 	}
-	return writeJSON(*out, map[string]interface{}{"scenarios": all, "strings": len(in.Tab), "glue": glue, "api_checks": checks})
+	return writeJSON(*out, map[string]interface{}{"scenarios": all, "strings": len(in.Tab), "glue": glue, "api_checks": checks, "api_cases": apiCases})
 }
 
 func init() { register("c18", cmdC18) }
